@@ -281,7 +281,7 @@ def _run(ctx):
         'pause_workflow')
     shared.subworkflow_recursion_unrestricted(
         ctx, r3, 'mistral.engine.workflow_handler.resume_workflow',
-        'resume_workflow')
+        'resume_workflow', own_states=('PAUSED', 'IDLE'))
     tu = prog.func(TASK + '.update')
     ucfg = ctx.cfg(tu)
     ss = [n for n, c in U.calls_in(ucfg, 'set_state')]
